@@ -615,11 +615,24 @@ static cJSON *sort_list(cJSON *list, const cJSON_bool case_sensitive)
 
 static void sort_object(cJSON * const object, const cJSON_bool case_sensitive)
 {
+    cJSON *last = NULL;
+
     if (object == NULL)
     {
         return;
     }
     object->child = sort_list(object->child, case_sensitive);
+
+    /* the first child's prev has to point to the last child again */
+    if (object->child != NULL)
+    {
+        last = object->child;
+        while (last->next != NULL)
+        {
+            last = last->next;
+        }
+        object->child->prev = last;
+    }
 }
 
 static cJSON_bool compare_json(cJSON *a, cJSON *b, const cJSON_bool case_sensitive)
